@@ -28,7 +28,8 @@ def sig3(a, digits=6):
 # ---------------------------------------------------------------------- data
 
 DEGEN_KINDS = ["zero_col", "zero_col_last", "dup_col", "const_col", "zero_y", "const_y",
-               "one_feature", "scale_1e6", "scale_1e-6", "zero_group", "n_lt_p"]
+               "one_feature", "scale_1e6", "scale_1e-6", "zero_group", "n_lt_p", "scale_1e9",
+               "scale_1e-9"]
 
 
 def gen_X(rng, n, p, rho=None, density=None, scale_decades=None):
@@ -122,6 +123,10 @@ def apply_degen(rng, X, y, kind, degen):
     elif degen == "scale_1e-6":
         j = int(rng.integers(p))
         X[:, j] *= 1e-6
+        info["col"] = j
+    elif degen in ("scale_1e9", "scale_1e-9"):
+        j = int(rng.integers(p))
+        X[:, j] *= 1e9 if degen == "scale_1e9" else 1e-9
         info["col"] = j
     return X, y, info
 
@@ -449,4 +454,16 @@ def gen_problem(rng, entry=None, variant=None, degen=None, n=None, p=None, fi=No
         data["X"] = Xa.tolist()
         data["degen"] = dict(kind="zero_group", group=g)
     fam = finish_family(rng, fam, data, fi, alpha_frac)
+    if degen in ("scale_1e6", "scale_1e9") and "alpha" in fam["pargs"] and p >= 2 \
+            and fam["penalty"] not in ("IndicatorBox",) and datafit != "QuadraticSVC" \
+            and rng.random() < 0.6:
+        # "widely different feature scales": the critical strength is dominated by the huge
+        # column; a strength chosen relative to it leaves every other feature inactive and the
+        # run says nothing about them.  Choose it relative to the remaining columns instead.
+        Xr = np.array(data["X"], dtype=float)
+        Xr[:, data["degen"]["col"]] = 0.0
+        rest = reference_alpha_max(fam, dict(data, X=Xr.tolist()), fi)
+        if np.isfinite(rest) and rest > 0:
+            fam["alpha_max_rest"] = float(rest)
+            fam["pargs"]["alpha"] = float(sig3(rest * fam["alpha_frac"], 6))
     return dict(family=fam, data=data, fi=fi, storage=storage, T=T)
